@@ -90,7 +90,7 @@ CLAIMS = {
     "C13": mixed("PROVED for ALL sequences of (error, point count) the evaluation steps may produce: continue_adaptive_refinement stops at the FIRST evaluation meeting a stopping "
                  "rule, never refines after it, appends exactly one history entry per evaluation recording that evaluation (ghost counters on abstract step contracts); Integration.get_global_error_estimate (result vectors of length 1..3, norms 1/2/inf): the reported error is the normalised "
                  "norm of the absolute deviation exactly for the zero reference and of the component-wise relative deviation for every other reference, however small; the default local error estimators of both adaptive strategies (vectors of length 1..3, norms 1/2/inf) return the normalised "
-                 "norm of absolute values and are never negative. "
+                 "norm of absolute values and are never negative; the reported point count is the number of points in the integrand's evaluation cache (chain get_total_num_points -> get_distinct_points -> get_f_dict_size; that the cache holds exactly the distinct evaluated points is C12's contract). "
                  "BOUNDED: all strategies with reference solution: reported error == normalised deviation in the chosen norm, point count == distinct evaluations, no negative errors."),
     "C14": bounded("BOUNDED (deciding): stop-and-continue at every interruption index, save/restore round trip (dill) vs an uninterrupted run. PROVED support: the driver loop is "
                    "re-entrant for an arbitrary existing history (C13 contract); the selection kernel a resumed run uses is the exact comparison benefit >= tolerance (any container size), "
